@@ -273,7 +273,7 @@ def _fix_report(ctx, recs: list, verdicts: list, source: str, divs: dict) -> dic
     for sig, rec in sorted(best.items()):
         ctx.violation(sig, dict(
             part="B", source=source, S=rec["S"], vname=rec["pre"]["vname"], nname=rec["pre"]["nname"], observed=rec["post"],
-            exception=rec.get("exc"), instances_with_this_signature=counts[sig],
+            exception=rec.get("exc"), instances_with_this_signature=counts[sig], composite=rec.get("composite"),
             message=f"NameFixPass on {_describe(rec)}: post-condition {sig.split(':', 2)[2]} fails on the observed result "
                     f"{rec['post']['vname']}/{rec['post']['nname']}"
                     + (f" ({rec['exc']})" if rec.get("exc") else "") + f" [{counts[sig]} instances]"))
@@ -326,6 +326,49 @@ def part_b(ctx, divs: dict, kinds_all: dict) -> None:
         ctx.extra[f"fix_{c}_structures"] = len(structs)
         ctx.extra[f"fix_{c}_nonconforming"] = sum(1 for r in out if not r["conf"])
 
+    # ---- whole models: a main graph and one or two functions, all of them enumerated instances (FModel) --
+    ncomp = 40000 if thorough else 4000
+    pool_recs = [r for _, out in batches for r in out]
+    mains = [r for r in pool_recs if r["S"]["top"] == "graph"]
+    funcs = [r for r in pool_recs if r["S"]["top"] == "function"]
+    # functions that need fixing first: that is where a model-level driver can go wrong
+    funcs.sort(key=lambda r: (not r["pred"]["mod"], r["key"], r["pre"]["vname"], r["pre"]["nname"]))
+    nfix = max(1, sum(1 for r in funcs if r["pred"]["mod"]))
+    mains.sort(key=lambda r: (r["key"], r["pre"]["vname"], r["pre"]["nname"]))
+    items, members = [], []
+    if mains and funcs:
+        stride = max(1, len(mains) // ncomp)
+        for i, m in enumerate(mains[ctx.seed % stride::stride][:ncomp]):
+            fs = [funcs[(i * 7 + 1) % nfix if i % 4 else (i * 11) % len(funcs)]]
+            if i % 3 == 0:
+                fs.append(funcs[(i * 13 + 5) % len(funcs)])
+            parts = [m] + fs
+            items.append(([(r["S"], r["pre"]["vname"], r["pre"]["nname"]) for r in parts], [r["pred"] for r in parts]))
+            members.append(parts)
+    comp = names_fix.replay_composites(items, NCPU, POOL) if items else []
+    crecs = []
+    flag_mismatch = 0
+    for parts, c in zip(members, comp):
+        if "error" in c:
+            raise MachineryError(f"composite model could not be built: {c['error']}")
+        if c["want_mod"] is not None and c["mod"] is not None and c["mod"] != c["want_mod"]:
+            flag_mismatch += 1
+        for r, t in zip(parts, c["tops"]):
+            if t["untouched_expected"]:
+                continue
+            jstructs.append(r["S"]["raw"])
+            jfix.append([len(jstructs), t["pre"], t["post"], False])
+            crecs.append({"S": r["S"], "pre": t["pre"], "post": t["post"], "exc": c["exc"], "conf": t["conf"], "pred": r["pred"],
+                          "composite": [[p["S"]["raw"], p["pre"]["vname"], p["pre"]["nname"]] for p in parts]})
+    if crecs:
+        batches.append(("model", crecs))
+    ctx.replayed += len(comp)
+    ctx.extra["fix_composite_models"] = len(comp)
+    ctx.extra["fix_composite_tops_judged"] = len(crecs)
+    ctx.extra["fix_composite_nonconforming_tops"] = sum(1 for r in crecs if not r["conf"])
+    if flag_mismatch:
+        divs["DIV:fix:model:modified-flag"] = flag_mismatch
+
     # ---- code -> spec: random larger instances, conformance checked by TLC as well -----------------
     nrand = 20000 if thorough else 1500
     rng = random.Random(ctx.seed * 7919 + 15)
@@ -346,7 +389,11 @@ def part_b(ctx, divs: dict, kinds_all: dict) -> None:
     for c, out in batches:
         fv = fv_all[pos:pos + len(out)]
         pos += len(out)
-        if c == "random":
+        if c == "model":
+            for r, (broken, _) in zip(out, fv):
+                kk = f"B|model|{r['S']['top']}|{r['post']['out']}|{'conf' if r['conf'] else 'nonconf'}|" + "+".join(broken)
+                kinds_all[kk] = kinds_all.get(kk, 0) + 1
+        elif c == "random":
             nconf = sum(1 for _, cf in fv if cf)
             ctx.validated += nconf
             ctx.case(None, n=len(out))
@@ -366,7 +413,7 @@ def part_b(ctx, divs: dict, kinds_all: dict) -> None:
                 ctx.samples.append({"kind": "naming instance enumerated by TLC, real NameFixPass result judged by TLC",
                                     "structure": r["S"]["raw"], "before": [r["pre"]["vname"], r["pre"]["nname"]],
                                     "after": [r["post"]["vname"], r["post"]["nname"]], "outcome": r["post"]["out"]})
-        counts = _fix_report(ctx, out, fv, c if c == "random" else f"enum-{c}", divs)
+        counts = _fix_report(ctx, out, fv, c if c in ("random", "model") else f"enum-{c}", divs)
         for k, v in counts.items():
             all_counts[k] = all_counts.get(k, 0) + v
     for kk, v in kinds_all.items():
@@ -548,6 +595,22 @@ def replay(ctx, detail: dict) -> bool:
         rep = _auth_trace_validate(ctx, [events], detail.get("ng", 2), "replay")
         print("TLC reports:", {k: v for k, v in rep.items() if v})
         return bool(rep["fresh"] or rep["kept"])
+    if part == "B" and detail.get("composite"):
+        # a whole model: main graph + functions; every top is judged
+        parts = [(names_fix.derive_lists(raw), vn, nn) for raw, vn, nn in detail["composite"]]
+        o = names_fix.run_composite(parts)
+        if "error" in o:
+            raise MachineryError(o["error"])
+        print("tops before:", [(p["vname"], p["nname"]) for p in o["pres"]], "after:",
+              [(p["vname"], p["nname"]) for p in o["posts"]], o["exc"])
+        posts = [dict(p, out="ok") for p in o["posts"]]
+        if o["out"] == "raise":
+            posts[0]["out"] = "raise"
+        fv, _ = judge(ctx, [p[0]["raw"] for p in parts], [[k + 1, pre, post, False] for k, (pre, post) in
+                                                         enumerate(zip(o["pres"], posts))], [], "replay")
+        print("post-conditions broken per top (TLC):", [f[0] for f in fv])
+        clause = (detail.get("_signature", "").split(":") + ["", "", ""])[2]
+        return any((clause in f[0]) if clause else bool(f[0]) for f in fv)
     if part == "B":
         o = names_fix.run_instance(detail["S"], detail["vname"], detail["nname"])
         if "error" in o:
@@ -555,7 +618,8 @@ def replay(ctx, detail: dict) -> bool:
         print("before:", o["pre"]["vname"], o["pre"]["nname"], "after:", o["post"], o["exc"])
         fv, _ = judge(ctx, [detail["S"]["raw"]], [[1, o["pre"], o["post"], False]], [], "replay")
         print("post-conditions broken (TLC):", fv[0][0])
-        return bool(fv[0][0])
+        clause = (detail.get("_signature", "").split(":") + ["", "", ""])[2]
+        return (clause in fv[0][0]) if clause else bool(fv[0][0])
     if part == "C":
         o = names_rename.run_instance(detail["pre"], detail["pairs"])
         if "error" in o:
